@@ -11,7 +11,7 @@
    sub_ty                   = the order bool < int < float, String alone *)
 From Coq Require Import ZArith QArith List Bool.
 From RV Require Import Base.Wire Base.Text Lang.PyAst Lang.PySem Lang.Infer Lang.InferGuard Lang.InferSpec
-  Lang.Decl Lang.DeclSpec Proofs.InferP Proofs.JoinP Proofs.DeclP.
+  Lang.Decl Lang.DeclSpec Lang.FnSpec Proofs.InferP Proofs.JoinP Proofs.DeclP Proofs.FnP.
 Import ListNotations.
 Open Scope Z_scope.
 
@@ -213,3 +213,103 @@ Theorem C02_branch_hoist_refuted :
     p_globals ps = [(x_a, CInt)].
 Proof. exact branch_hoist_narrows. Qed.
 Print Assumptions C02_branch_hoist_refuted.
+
+(* ---------------------------------------------------------------- function results, values
+   ret_body rets          = a function body  [if c: return e | return e]*  (Lang/FnSpec.v)
+   parse_function_core    = _parse_function for one call signature (Lang/Decl.v)
+   fn_tenv cur params sg  = var_types inside that variant; fn_table = the functions table the body is typed with
+   ret_guard              = every return expression is inside [guard] and has a scalar label *)
+
+(* whichever return statement executes, the merged result type holds the value it returns *)
+Theorem C02_result_covers_every_return_partial :
+  forall (rets : list (ty * pval)) t,
+    merge_return_types (map fst rets) false = Some t ->
+    forallb scalar (map fst rets) = true ->
+    (forall u v, In (u, v) rets -> repr u v) ->
+    forall u v, In (u, v) rets -> crepr (cpp_type t) v.
+Proof. exact result_covers_every_return. Qed.
+Print Assumptions C02_result_covers_every_return_partial.
+
+(* the same about the model of _parse_function: for the variant parsed for call signature sg, in any environment
+   whose names hold values of their labels, the declared C return type holds the value of every return expression *)
+Theorem C02_function_result_covers_partial :
+  forall C fe cur name params rets sg fe1 p1 final d rho,
+    parse_function_core C fe cur name (mk_fsrc params None (ret_body rets)) (Some sg) = Some (fe1, p1, final) ->
+    ret_guard (fn_table fe name) (fe_alias fe) C (fn_tenv cur params sg) rets = true ->
+    env_sound (fn_tenv cur params sg) rho ->
+    sig_lookup final (get_or [] (tlookup name (fe_defs fe1))) = Some d ->
+    forall g e v, In (g, e) rets -> peval rho e = Ok v -> crepr (fd_ret d) v.
+Proof. exact function_result_covers. Qed.
+Print Assumptions C02_function_result_covers_partial.
+
+(* def debounce(count, limit): if count < 0: return False ; if count >= limit: return True ; return count + 1
+   called as debounce(3, 10): declared int, returns 4 *)
+Example C02_function_result_nonvacuous :
+  exists fe1 p1 d,
+    parse_function_core None fenv0 empty_ctx z_f (mk_fsrc debounce_params None (ret_body debounce_rets)) (Some [TInt; TInt])
+      = Some (fe1, p1, [TInt; TInt]) /\
+    ret_guard (fn_table fenv0 z_f) (fe_alias fenv0) None (fn_tenv empty_ctx debounce_params [TInt; TInt]) debounce_rets = true /\
+    env_sound (fn_tenv empty_ctx debounce_params [TInt; TInt]) debounce_rho /\
+    sig_lookup [TInt; TInt] (get_or [] (tlookup z_f (fe_defs fe1))) = Some d /\ fd_ret d = CInt /\
+    peval debounce_rho (EBin Add (EName z_count) (EInt 1)) = Ok (VInt 4) /\
+    peval debounce_rho (EBool true) = Ok (VBool true).
+Proof. exact debounce_nonvacuous. Qed.
+Print Assumptions C02_function_result_nonvacuous.
+
+(* a parameter is declared from the label var_types holds for it at the END of the body:
+   def f(p): q = p * 2 ; p = 1 ; return q   called as f(2.5) is emitted  float f(int p) *)
+Theorem C02_param_relabel_refuted :
+  exists ps d,
+    run_items None relabel_prog = Some ps /\
+    tlookup z_f (fe_calls (p_fe ps)) = Some [[TFloat]] /\
+    selected_functions (p_fe ps) = [(z_f, d)] /\
+    fd_params d = [(z_p, CInt)] /\ fd_ret d = CFloat /\
+    ~ crepr CInt (VFloat (5 # 2)).
+Proof. exact param_relabel. Qed.
+Print Assumptions C02_param_relabel_refuted.
+
+(* ---------------------------------------------------------------- hoisting, every scope *)
+
+(* the C type of every declaration an if / elif / else hoists is the one of the label var_types holds for that
+   name after the statement (the label it has in the first branch that assigns it) - for every statement, every
+   nesting, every state of the function tables and WHATEVER the shared promotion table contained before *)
+Theorem C02_branch_hoist_type_is_label :
+  forall (S : Type) call C (s : S) st brs els s1 st1,
+    run_stmt S call C s st (SIf brs els) = Some (s1, st1) ->
+    exists hoisted,
+      st_decls st1 = st_decls st ++ hoisted /\
+      forall x c, In (x, c) hoisted -> c = cpp_type (tget (d_types (st_ctx st1)) x).
+Proof. exact branch_hoist_type_is_label. Qed.
+Print Assumptions C02_branch_hoist_type_is_label.
+
+Example C02_branch_hoist_nonvacuous :
+  exists st1,
+    run_stmt unit (call_st [] []) None tt
+      (mk_bstate (mk_dctx [] [] (Some [(z_x, CString)])) [] (mk_acc [] [] false))
+      (if_else [SAssign z_x (EFloat (5 # 2))] [SAssign z_x (EFloat (1 # 2))]) = Some (tt, st1) /\
+    st_decls st1 = [(z_x, CFloat)] /\ tget (d_types (st_ctx st1)) z_x = TFloat.
+Proof. exact branch_hoist_nonvacuous. Qed.
+Print Assumptions C02_branch_hoist_nonvacuous.
+
+(* loops are different: _make_promotion_decls reads the shared table first, so a name first assigned inside a
+   loop takes the C type a same-named variable was hoisted with by an if/else of ANOTHER scope:
+   after a top-level hoist,  def f(p): if ..: out = 1 else: out = 2   then   def g(p): while ..: out = p * 0.5
+   declares  int out  in g (label float, g(3) is 1.5 in Python, 1 on the device) ... *)
+Theorem C02_loop_hoist_stale_table_refuted :
+  exists ps d,
+    run_items None stale_prog = Some ps /\
+    In (z_g, d) (selected_functions (p_fe ps)) /\
+    fd_params d = [(z_p, CInt)] /\ fd_ret d = CFloat /\
+    tlookup z_out (fd_locals d) = Some CInt /\
+    ~ crepr CInt (VFloat (3 # 2)) /\ c_store CInt (VFloat (3 # 2)) = Some (VInt 1).
+Proof. exact loop_hoist_stale_table. Qed.
+Print Assumptions C02_loop_hoist_stale_table_refuted.
+
+(* ... and float out without the top-level hoist (no shared table) *)
+Example C02_loop_hoist_fresh_table :
+  exists ps d,
+    run_items None fresh_prog = Some ps /\
+    In (z_g, d) (selected_functions (p_fe ps)) /\
+    tlookup z_out (fd_locals d) = Some CFloat.
+Proof. exact loop_hoist_fresh_table. Qed.
+Print Assumptions C02_loop_hoist_fresh_table.
